@@ -28,7 +28,8 @@ function t:method() return self end
 assert(lf(1), "message")
 debug.profilebegin("label")
 local r = require("./dep.lua")
-print(G, _G.G, math.sqrt(4), t:method(), ("x"):rep(2), 0b11, 1_000, gf(), r)
+local pkg = require("@Pkg/dep")
+print(pkg, G, _G.G, math.sqrt(4), t:method(), ("x"):rep(2), 0b11, 1_000, gf(), r)
 const c = nil
 @native local function nf() end
 type T = number
@@ -36,7 +37,7 @@ return true and lf(2)
 "#;
 
 fn project() -> Vec<(&'static str, &'static str)> {
-    vec![("src/a/x.lua", PROBE), ("src/b/y.luau", PROBE), ("src/a/dep.lua", "return 1\n"), ("src/b/dep.lua", "return 2\n")]
+    vec![("src/a/x.lua", PROBE), ("src/b/y.luau", PROBE), ("src/a/dep.lua", "return 1\n"), ("src/b/dep.lua", "return 2\n"), (".luaurc", "{\"aliases\": {\"Pkg\": \"./src/a\"}}")]
 }
 
 fn behaviour(config: Configuration) -> Result<String, String> {
@@ -89,6 +90,9 @@ fn rule_menus() -> Vec<RuleMenu> {
                 "current: {name: 'path', sources: {src: './src'}}, target: {name: 'luau', aliases: {'@src': './src'}}",
                 "current: 'path', target: {name: 'path', module_folder_name: 'index'}",
                 "current: {name: 'luau', use_luau_configuration: false}, target: 'path'",
+                "current: {name: 'path', use_luau_configuration: false}, target: 'luau'",
+                "current: {name: 'path', use_luau_configuration: true}, target: 'luau'",
+                "current: 'luau', target: {name: 'path', use_luau_configuration: false, module_folder_name: 'index'}",
                 "current: 'path', target: 'roblox'",
                 "current: 'path', target: {name: 'roblox', indexing_style: 'wait_for_child'}",
                 "current: {name: 'roblox'}, target: 'path'",
@@ -99,7 +103,7 @@ fn rule_menus() -> Vec<RuleMenu> {
         RuleMenu {
             name: "inject_global_value",
             variants: vec!["identifier: 'G'", "identifier: 'G', value: true", "identifier: 'G', value: false", "identifier: 'G', value: 0", "identifier: 'G', value: 1.5", "identifier: 'G', value: 's'", "identifier: 'G', value: [1, 2]", "identifier: 'G', value: {a: 1}", "identifier: 'G', value: null", "identifier: 'H', value: 1"],
-            invalid: vec!["", "value: 1", "identifier: 1", "identifier: 'G', value: 1, env: 'X'", "identifier: 'G', value: 1, default_value: 2", "identifier: 'G', extra: 1", "identifer: 'G'"],
+            invalid: vec!["", "value: 1", "identifier: 1", "identifier: 'G', value: 1, env: 'X'", "identifier: 'G', value: 1, default_value: 2", "identifier: 'G', env: 'X', env_json: 'Y'", "identifier: 'G', value: 1, env_json: 'Y'", "identifier: 'G', env: 'X', env_json: 'Y', default_value: 1", "identifier: 'G', extra: 1", "identifer: 'G'"],
             requires_properties: true,
         },
         RuleMenu { name: "remove_assertions", variants: vec!["", "preserve_arguments_side_effects: false", "preserve_arguments_side_effects: true"], invalid: vec!["preserve_arguments_side_effects: 'yes'", "preserve_arguments_side_effects: 1", "preserve: true"], requires_properties: false },
@@ -129,10 +133,16 @@ fn rule_menus() -> Vec<RuleMenu> {
 const FILTERS: &[&str] = &[
     "",
     "apply_to_files: '**/a/*'",
+    "apply_to_files: ['**/a/*']",
     "apply_to_files: ['**/a/*', '**/*.luau']",
     "skip_files: '**/a/*'",
-    "skip_files: ['**/a/*', 'nothing']",
+    "skip_files: ['**/a/*']",
+    "skip_files: ['nothing', '**/a/*']",
     "apply_to_files: 'src/**', skip_files: '**/b/*'",
+    "apply_to_files: 'src/**', skip_files: ['nothing', '**/b/*']",
+    "apply_to_files: ['src/**'], skip_files: ['nothing', 'other', '**/x.lua']",
+    "apply_to_files: ['src/a/**', 'src/b/**'], skip_files: '**/x.lua'",
+    "apply_to_files: ['nothing', 'src/a/**'], skip_files: ['nothing', '**/x.lua']",
     "apply_to_files: ['src/a/**'], skip_files: ['**/x.lua']",
 ];
 const INVALID_FILTERS: &[&str] = &["apply_to_files: '[a'", "skip_files: 1", "apply_to_files: {a: 1}", "skip_files: [1]", "apply_to_file: '**'"];
@@ -152,6 +162,14 @@ const TOP_LEVELS: &[&str] = &[
     "rules: [#RULE#], bundle: {require_mode: 'path'}",
     "rules: [#RULE#], bundle: {require_mode: {name: 'path', module_folder_name: 'index'}, modules_identifier: '__M', excludes: ['@lune/**']}",
     "rules: [#RULE#], bundle: {require_mode: 'luau'}",
+    "rules: [#RULE#], bundle: {require_mode: {name: 'path', use_luau_configuration: false}}",
+    "rules: [#RULE#], bundle: {require_mode: {name: 'path', use_luau_configuration: true}}",
+    "rules: [#RULE#], bundle: {require_mode: {name: 'path', sources: {Pkg: './src/b'}, use_luau_configuration: false}}",
+    "rules: [#RULE#], bundle: {require_mode: {name: 'luau', use_luau_configuration: false}}",
+    "rules: [#RULE#], bundle: {require_mode: {name: 'luau', aliases: {'@Pkg': './src/b'}, use_luau_configuration: false}}",
+    "rules: [#RULE#], bundle: {require_mode: 'path', modules_identifier: '__X'}",
+    "rules: [#RULE#], bundle: {require_mode: 'path', excludes: ['@Pkg/**']}",
+    "rules: [#RULE#], bundle: {require_mode: 'path', excludes: ['@Pkg/**', './dep.lua']}",
     "rules: [#RULE#], apply_to_files: '**/a/*'",
     "rules: [#RULE#], skip_files: ['**/b/*', '**/x.lua']",
     "rules: [#RULE#], apply_to_files: ['src/**'], skip_files: '**/b/*'",
@@ -207,14 +225,14 @@ fn check_valid(text: &str, info: &std::sync::Mutex<Vec<(String, u128, String)>>)
         Err(e) => Some(format!("the serialized configuration cannot be read back: {}", e)),
         Ok(c2) => {
             let s2 = serde_json::to_string(&c2).unwrap_or_default();
-            if s2 != s {
+            if canonical(&s2) != canonical(&s) {
                 Some(format!("serialization is not stable: {} -> {}", s, s2))
             } else {
                 let b1 = behaviour(parsed);
                 let b2 = behaviour(c2);
                 match (b1, b2) {
                     (Ok(a), Ok(b)) if a == b => {
-                        info.lock().unwrap().push((s.clone(), crate::common::hash128(&a), text.to_owned()));
+                        info.lock().unwrap().push((canonical(&s).to_string(), crate::common::hash128(&a), text.to_owned()));
                         None
                     }
                     (Ok(a), Ok(b)) => {
@@ -242,6 +260,15 @@ fn check_valid(text: &str, info: &std::sync::Mutex<Vec<(String, u128, String)>>)
             }),
         ),
     }
+}
+
+/// `bundle.excludes` is a set: its serialization order is not significant
+fn canonical(serialized: &str) -> serde_json::Value {
+    let mut v: serde_json::Value = serde_json::from_str(serialized).unwrap_or(serde_json::Value::Null);
+    if let Some(list) = v.get_mut("bundle").and_then(|b| b.get_mut("excludes")).and_then(|e| e.as_array_mut()) {
+        list.sort_by_key(|x| x.to_string());
+    }
+    v
 }
 
 fn check_invalid(text: &str) -> Option<Violation> {
